@@ -145,6 +145,23 @@ Qed.
 Theorem builtin_font_wf b : In b fonts -> font_wf (bf_font b) /\ f_sp (bf_font b) = 0.
 Proof. exact (builtin_font_wf_aux b). Qed.
 
+(* ---- metrics follow the generator's convention: underline 2 below the baseline, strikethrough at half
+   the glyph height, both one pixel high *)
+Definition deco_convention_b (b : bfont) : bool :=
+  let f := bf_font b in
+  (d_off (f_ul f) =? f_base f + 2) && (d_h (f_ul f) =? 1) && (d_off (f_st f) =? f_ch f / 2) && (d_h (f_st f) =? 1).
+Lemma all_deco_convention : forallb deco_convention_b fonts = true.
+Proof. vm_compute. reflexivity. Qed.
+Theorem builtin_deco_convention b :
+  In b fonts ->
+  let f := bf_font b in
+  f_ul f = Deco (f_base f + 2) 1 /\ f_st f = Deco (f_ch f / 2) 1.
+Proof.
+  intros H. cbn zeta. pose proof (proj1 (forallb_forall _ _) all_deco_convention b H) as E.
+  unfold deco_convention_b in E. destruct (f_ul (bf_font b)) as [uo uh], (f_st (bf_font b)) as [so sh].
+  cbn [d_off d_h] in E. split; f_equal; lia.
+Qed.
+
 (* ---- consequences for the index of a built-in font *)
 Theorem builtin_index_nth b n c :
   In b fonts -> nth_error (builtin_chars b) n = Some c -> builtin_index b c = Z.of_nat n.
